@@ -118,8 +118,9 @@ def outline_markers(result):
                   if isinstance(x, dict) and str(x.get("name", "")).startswith("M_"))
 
 
-def to_trace(run, s, item, rec):
-    """recorded events of one run -> TraceServer events"""
+def to_trace(run, s, item, rec, conv=True):
+    """recorded events of one run -> TraceServer events.  conv = False: convergence of diagnostics is not evaluated at Quiet, so that
+    a run is never rejected for C11's reason before its responses (C12) have been looked at"""
     ev = [{"ev": "Reset"}]
     if rec.get("outcome") == "Skipped":
         return ev + [{"ev": "End", "run": run}]
@@ -143,7 +144,9 @@ def to_trace(run, s, item, rec):
                        "file": e["file"].replace(".td", "")})
         elif k == "Response":
             ev.append({"ev": "Response", "id": e["id"], "markers": outline_markers(e["result"]) if e.get("ok") else ["ERROR"]})
-        elif k in ("Quiet", "NoQuiescence"):
+        elif k == "Quiet":
+            ev.append({"ev": k, "conv": conv})
+        elif k == "NoQuiescence":
             ev.append({"ev": k})
     ev.append({"ev": "End", "run": run})
     return ev
@@ -220,7 +223,7 @@ def run_sessions(prop, tier, seed, outline, relevant):
     log("%s %s: %d server sessions" % (prop, tier, len(items)))
     send = [{k: val for k, val in it.items()} for it in items]
     recs, _ = common.run_harness(send, wd, "sessions", timeout_ms=90000, jobs=12)
-    traces = [to_trace(i, meta[i][0], items[i], recs[i]) for i in range(len(items))]
+    traces = [to_trace(i, meta[i][0], items[i], recs[i], conv=(prop != "C12")) for i in range(len(items))]
     verdicts, states = validate(traces, wd, "all")
     rejected = 0
     other = {}
@@ -419,7 +422,9 @@ def check_c08(tier, seed):
                 ev.append({"ev": "Request", "id": e["id"], "kind": "other", "file": "a"})
             elif e["ev"] == "Response":
                 ev.append({"ev": "Response", "id": e["id"], "markers": []})
-            elif e["ev"] in ("Quiet", "NoQuiescence"):
+            elif e["ev"] == "Quiet":
+                ev.append({"ev": "Quiet", "conv": True})
+            elif e["ev"] == "NoQuiescence":
                 ev.append({"ev": e["ev"]})
         if not any(e["ev"] in ("Quiet", "NoQuiescence", "Crash") for e in ev):
             ev.append({"ev": "NoQuiescence"})
